@@ -707,7 +707,25 @@ func (f *Factory) ConstArray(iw, vw int, vals []uint64) *Term {
 }
 
 func (f *Factory) Select(arr, idx *Term) *Term {
+	// select over a store chain with constant indices resolves syntactically
+	for a := arr; a.op == "store"; a = a.args[0] {
+		if a.args[1] == idx {
+			return a.args[2]
+		}
+		if !(a.args[1].konst && idx.konst) {
+			break
+		}
+	}
 	return f.mk("select", BV(arr.sort.W), 0, 0, arr, idx)
+}
+
+// ArrayVar is an unconstrained array variable (BV iw -> BV vw).
+func (f *Factory) ArrayVar(name string, iw, vw int) *Term {
+	return f.Var(name, Sort{K: SArr, W: vw, IW: iw})
+}
+
+func (f *Factory) Store(arr, idx, val *Term) *Term {
+	return f.mk("store", arr.sort, arr.sort.IW, 0, arr, idx, val)
 }
 
 // ---- floating point (float64 only)
